@@ -165,6 +165,22 @@ func TestBigInt(t *testing.T) {
 				t.Fatal("Rsh")
 			}
 		}
+		// QuoRem = (Quo, Rem), operands read before the receivers are written
+		if y.Sign() != 0 {
+			q0, r0 := new(big.Int).Quo(x, y), new(big.Int).Rem(x, y)
+			q, r := new(big.Int).QuoRem(x, y, new(big.Int))
+			if q.Cmp(q0) != 0 || r.Cmp(r0) != 0 {
+				t.Fatal("QuoRem != (Quo, Rem)")
+			}
+			xa := new(big.Int).Set(x)
+			if q2, r2 := xa.QuoRem(xa, y, new(big.Int)); q2.Cmp(q0) != 0 || r2.Cmp(r0) != 0 {
+				t.Fatal("QuoRem aliasing z==x")
+			}
+			xb := new(big.Int).Set(x)
+			if q3, r3 := new(big.Int).QuoRem(xb, y, xb); q3.Cmp(q0) != 0 || r3.Cmp(r0) != 0 {
+				t.Fatal("QuoRem aliasing r==x")
+			}
+		}
 		// Or of non-negative operands: bounds, and addition when the bit ranges are disjoint
 		if x.Sign() >= 0 {
 			ya := new(big.Int).Abs(y)
